@@ -14,6 +14,7 @@ R09f comparator functors compare their two parameters with each other (swap-symm
 R09g index lists that are binary-searched are re-sorted after every append (same container)
 """
 import itertools
+import os
 import re
 from engine import facts, fd, lin, paths
 from engine.facts import AnalysisBroken, src
@@ -21,7 +22,8 @@ from engine.shape import key, args, pkey, origin, for_loop, full_component_loop,
 
 UNITS = [src('base', 'src', 'StateSpace.cpp'), src('base', 'src', 'StateStorage.cpp'),
          src('base', 'src', 'PlannerDataStorage.cpp'), src('control', 'src', 'PlannerDataStorage.cpp'),
-         src('base', 'src', 'PlannerData.cpp'), src('base', 'spaces', 'src', 'WrapperStateSpace.cpp')]
+         src('base', 'src', 'PlannerData.cpp'), src('base', 'spaces', 'src', 'WrapperStateSpace.cpp'),
+         os.path.join(facts.INST, 'storage.cpp')]
 
 
 def nofp(s):
@@ -556,6 +558,54 @@ def r09g(rep, F):
     rep.require_count('R09g', 'appends to binary-searched lists', n, 2)
 
 
+def r09h(rep, F):
+    rep.rule('R09h', 'PlannerData::extractReachable copies every edge: in the loop over the neighbours obtained from getEdges(v, .) the '
+                     'data.addEdge call is a top-level statement of the loop body and nothing before it can leave the iteration '
+                     '(continue / break / return / a conditional around it) -- an edge to a vertex that was extracted earlier '
+                     '(diamonds, cycles, bidirectional edges) must still be added')
+    f = F.one('ompl::base::PlannerData::extractReachable')
+    loops = [x for x in f.walk() if x['k'] in ('CXXForRangeStmt', 'ForStmt') and any((c.get('callee') or '').endswith('PlannerData::addEdge') for c in f.walk(x['body']))]
+    if len(loops) != 1:
+        raise AnalysisBroken('R09h: neighbour loop of extractReachable not found')
+    lp = loops[0]
+    body = f.nodes[lp['body']]
+    stmts = body['ch'] if body['k'] == 'CompoundStmt' else [lp['body']]
+    why = 'addEdge is not a top-level statement of the loop body (it is conditional)'
+    ok = False
+    for sid in stmts:
+        st = f.strip(sid)
+        if st is not None and (st.get('callee') or '').endswith('PlannerData::addEdge'):
+            ok = True
+            why = 'addEdge runs on every iteration'
+            break
+        if any(z['k'] in ('ContinueStmt', 'BreakStmt', 'ReturnStmt', 'CXXThrowExpr') for z in f.walk(sid)):
+            why = 'an iteration can be left (line %d) before its edge is added: edges to vertices that were already extracted are dropped' % f.line(f.nodes[sid])
+            break
+    rep.add('R09h', f.name, 'every-edge-copied', ok, f.where(lp), why)
+
+
+def r09i(rep, F):
+    rep.rule('R09i', 'load paths do not swallow failures: in StateStorage, StateStorageWithMetadata and both PlannerDataStorage classes every '
+                     'catch handler inside a function whose name starts with load either rethrows or reports through the log (OMPL_ERROR / '
+                     'OMPL_WARN) -- a truncated or corrupt stream must be rejected and reported, not replaced by defaults')
+    n = 0
+    recs = ('ompl::base::StateStorage', 'ompl::base::StateStorageWithMetadata', 'ompl::base::PlannerDataStorage', 'ompl::control::PlannerDataStorage')
+    loads = 0
+    for f in F.functions:
+        if not f.body or (f.record or '').split('<')[0] not in recs or not f.name.split('::')[-1].startswith('load'):
+            continue
+        loads += 1
+        for h in [x for x in f.walk() if x['k'] == 'CXXCatchStmt']:
+            n += 1
+            ok = any(z['k'] == 'CXXThrowExpr' or (z.get('callee') or '') == 'ompl::msg::log' for z in f.walk(h['id']))
+            rep.add('R09i', f.name, 'catch-reports#%d' % f.line(h), ok, f.where(h), 'the handler reports or rethrows' if ok else
+                    'a catch handler in a load function neither rethrows nor logs: the failure is hidden from load(), which reports success '
+                    'for a stream it could not read')
+    if loads < 8:
+        raise AnalysisBroken('R09i: only %d load functions found (StateStorageWithMetadata instantiation missing?)' % loads)
+    rep.require_count('R09i', 'catch handlers on load paths', n, 3)
+
+
 def run(rep):
     F = facts.load_units(UNITS)
     rep.units.update(UNITS)
@@ -567,3 +617,5 @@ def run(rep):
     r09e(rep, F)
     r09f(rep, F)
     r09g(rep, F)
+    r09h(rep, F)
+    r09i(rep, F)
